@@ -200,8 +200,11 @@ def _work(chunk):
     out = []
     n = 0
     for impl, hist in chunk:
-        if run_history(impl, hist, out):
-            n += 1
+        try:
+            if run_history(impl, hist, out):
+                n += 1
+        except report.Livelock as e:
+            out.append(report.livelock_violation(impl, e, {'impl': impl, 'history': list(hist)}))
     return [v.to_json() for v in out[:300]], n, len(out)
 
 
